@@ -262,36 +262,38 @@ func checkC07Job(ctx *core.Ctx, i, stripe int, rep *core.Report) {
 				}
 				copy(buf, cf.data)
 				buf[off] ^= 1 << bit
-				rep.Eval(1)
-				rep.Count("attachment_bit_flips", 1)
-				lr := drive.Lex(bytes.NewReader(buf), drive.LexOpts{Validate: true, ComputeAttCRC: true})
-				if lr.Panic != nil {
-					rep.Violate("panic", fmt.Sprintf("%s: attachment at %d, bit %d of byte %d flipped: %v", c.Describe(), rec.Off, bit, off, lr.Panic), cf.witness)
-					return
-				}
-				// find the attachment outputs; the damaged one is the attOrdinal-th
-				k := 0
-				var got *drive.Out
-				for oi := range lr.Outs {
-					if lr.Outs[oi].Op == refmcap.OpAttachment {
-						if k == attOrdinal {
-							got = &lr.Outs[oi]
-						}
-						k++
+				for _, computedFirst := range []bool{false, true} {
+					rep.Eval(1)
+					rep.Count("attachment_bit_flips", 1)
+					lr := drive.Lex(bytes.NewReader(buf), drive.LexOpts{Validate: true, ComputeAttCRC: true, ComputedFirst: computedFirst})
+					if lr.Panic != nil {
+						rep.Violate("panic", fmt.Sprintf("%s: attachment at %d, bit %d of byte %d flipped: %v", c.Describe(), rec.Off, bit, off, lr.Panic), cf.witness)
+						return
 					}
-				}
-				switch {
-				case got == nil:
-					rep.Count("attachment_damage_parse_error", 1)
-				case got.AttReadErr != nil || got.CRCErr != nil:
-					rep.Count("attachment_damage_read_error", 1)
-				case got.ComputedCRC != got.ParsedCRC:
-					rep.Count("attachment_damage_crc_mismatch", 1)
-				case got.Canon == orig:
-					rep.Count("attachment_damage_harmless", 1)
-				default:
-					rep.Violate("altered-attachment-undetected", fmt.Sprintf("%s: attachment at %d, bit %d of byte %d flipped: callback received altered content with computed CRC == stored CRC (%08x)", c.Describe(), rec.Off, bit, off, got.ParsedCRC), cf.witness)
-					return
+					// find the attachment outputs; the damaged one is the attOrdinal-th
+					k := 0
+					var got *drive.Out
+					for oi := range lr.Outs {
+						if lr.Outs[oi].Op == refmcap.OpAttachment {
+							if k == attOrdinal {
+								got = &lr.Outs[oi]
+							}
+							k++
+						}
+					}
+					switch {
+					case got == nil:
+						rep.Count("attachment_damage_parse_error", 1)
+					case got.AttReadErr != nil || got.CRCErr != nil:
+						rep.Count("attachment_damage_read_error", 1)
+					case got.ComputedCRC != got.ParsedCRC:
+						rep.Count("attachment_damage_crc_mismatch", 1)
+					case got.Canon == orig:
+						rep.Count("attachment_damage_harmless", 1)
+					default:
+						rep.Violate("altered-attachment-undetected", fmt.Sprintf("%s: attachment at %d, bit %d of byte %d flipped: callback (ComputedCRC asked first=%v) received altered content with computed CRC == stored CRC (%08x)", c.Describe(), rec.Off, bit, off, computedFirst, got.ParsedCRC), cf.witness)
+						return
+					}
 				}
 			}
 		}
@@ -306,7 +308,7 @@ func RunC07(ctx *core.Ctx, rep *core.Report) {
 	rep.Level = "fault_enumeration"
 	rep.Rule = "CRC-enabled multi-chunk files (none/zstd/lz4 in rotation) written by the real Writer; for every chunk EVERY single-bit flip of EVERY byte of the stored records field (positions from the reference decoder), plus 42 seeded multi-byte overwrites / byte-range swaps per chunk, each read by NewLexer(ValidateChunkCRCs) with and without EmitInvalidChunks. " +
 		"Oracle: output identical to the original, or the records yielded before the first report (error that does not wrap io.EOF, or invalid-chunk token) are exactly the original records preceding the damaged chunk. " +
-		"Attachments: every single-bit flip from log_time through the CRC field, read through a callback with ComputeAttachmentCRCs; accepted iff the callback is not reached, its read fails, content equals the original, or computed != stored CRC. distinct_nontrivial counts distinct files enumerated."
+		"Attachments: every single-bit flip from log_time through the CRC field, read through a callback with ComputeAttachmentCRCs that asks for ParsedCRC/ComputedCRC in either order; accepted iff the callback is not reached, its read fails, content equals the original, or computed != stored CRC. distinct_nontrivial counts distinct files enumerated."
 	rep.Assumptions = []string{"record and field positions come from the reference decoder", "a CRC-32 collision would be reported as a violation (it is one); none is possible for single-bit flips of uncompressed chunks"}
 	n := ctx.Pick(12, 300)
 	core.Parallel(ctx, rep, n*c07Stripes, func(k int) { checkC07Job(ctx, k/c07Stripes, k%c07Stripes, rep) })
